@@ -291,6 +291,8 @@ Str gen_string(Rng& rng, size_t maxlen) {
         }
     }
     if (s.size() > maxlen) s.resize(maxlen);
+    // text saved by a Windows editor: a UTF-8 signature in front (data like any other as far as this library is concerned)
+    if (maxlen >= 6 && rng.chance(1, 48)) { s = "\xEF\xBB\xBF" + s; if (s.size() > maxlen) s.resize(maxlen); }
     return s;
 }
 // names that mean something to some file-URI convention (RFC 8089 localhost, Windows device / extended-length prefixes, legacy drive
@@ -312,6 +314,7 @@ Str gen_filename_unix(Rng& rng) {
     int n = rng.range(0, 5);
     for (int i = 0; i < n; i++) { if (i) s += '/'; s += gen_fname_segment(rng, "/"); if (rng.chance(1, 10)) s += '/'; }
     if (rng.chance(1, 20)) s = gen_string(rng, 12);
+    if (rng.chance(1, 32)) s = "\xEF\xBB\xBF" + s;      // first line of a list saved with a UTF-8 signature
     return s;
 }
 Str gen_filename_win(Rng& rng) {
@@ -319,12 +322,15 @@ Str gen_filename_win(Rng& rng) {
     // relative (does not start with "\\", second character is not ':')
     Str s; int kind = rng.below(3);
     auto tail = [&](Str& t) { int n = rng.range(0, 4); for (int i = 0; i < n; i++) { if (i) t += '\\'; t += gen_fname_segment(rng, "/\\"); if (rng.chance(1, 10)) t += '\\'; } };
-    if (kind == 0) { s.push_back((char)(rng.coin() ? rng.range('A', 'Z') : rng.range('a', 'z'))); s += ":\\"; tail(s); }
+    if (kind == 0) { s.push_back((char)(rng.coin() ? rng.range('A', 'Z') : rng.range('a', 'z'))); s += ":\\"; tail(s);
+        // deep trees: total lengths around MAX_PATH (260) and the other lengths of special_length()
+        if (rng.chance(1, 12)) { size_t want = rng.coin() ? (size_t)rng.range(250, 270) : special_length(rng); while (s.size() < want) { if (s.back() != '\\') s += '\\'; Str seg = "node_modules"; seg.resize(1 + rng.below(12)); s += seg; } if (s.size() > want && want > 3) s.resize(want); } }
     else if (kind == 1) { s += "\\\\"; Str srv = gen_fname_segment(rng, "/\\"); if (srv.empty()) srv = "srv"; s += srv; if (rng.coin()) { s += '\\'; tail(s); } }
     else {
         tail(s);
         if (s.size() >= 2 && s[0] == '\\' && s[1] == '\\') s[1] = 'x';
         if (s.size() >= 2 && s[1] == ':') s[1] = 'y';
+        if (rng.chance(1, 16)) s = "\xEF\xBB\xBF" + s;      // relative names only: in front of a drive letter or "\\\\" it would leave C18's domain
     }
     return s;
 }
